@@ -110,6 +110,14 @@ def call(addr: int) -> Instr:
     return bytes([0x04, addr & 0xFF, (addr >> 8) & 0xFF]), f"CALL  {addr & 0xFFFF:04X}"
 
 
+def callf(addr: int) -> Instr:
+    return bytes([0x05, addr & 0xFF, (addr >> 8) & 0xFF, (addr >> 16) & 0x0F]), f"CALLF {addr & 0xFFFFF:05X}"
+
+
+def jpf(addr: int) -> Instr:
+    return bytes([0x03, addr & 0xFF, (addr >> 8) & 0xFF, (addr >> 16) & 0x0F]), f"JPF   {addr & 0xFFFFF:05X}"
+
+
 def jr_back(n: int) -> Instr:
     return bytes([0x13, n]), f"JR    -{n:02X}"
 
@@ -121,6 +129,7 @@ def inc_imem(n: int) -> Instr:
 NOP: Instr = (b"\x00", "NOP")
 RETI: Instr = (b"\x01", "RETI")
 RET: Instr = (b"\x06", "RET")
+RETF: Instr = (b"\x07", "RETF")
 HALT: Instr = (b"\xDE", "HALT")
 OFF: Instr = (b"\xDF", "OFF")
 WAIT: Instr = (b"\xEF", "WAIT")
@@ -157,12 +166,13 @@ def selftest() -> None:
             raise HarnessError(f"C16 key table out of date for {k}: {loc}")
     for ins in (NOP, RETI, RET, HALT, OFF, WAIT, SC, RC, INC_A, PUSHS_F, POPS_F, PUSHU_A, POPU_A, log_a(),
                 mv_imem_imm(IMR, 0x85), mv_a_imem(KIL), mv_imem_a(0x10), mv_a_imm(0x55), mv_i_imm(3),
-                mv_abs_a(0x2000), mv_a_abs(0x40010), call(SUB), jr_back(9), inc_imem(0x10)):
+                mv_abs_a(0x2000), mv_a_abs(0x40010), call(SUB), jr_back(9), inc_imem(0x10), RETF, callf(0xD1234),
+                jpf(0xE1234)):
         verify(ins)
 
 
 PROFILES = ("timer-irq", "key-irq", "halt", "off-onk", "wait", "lcd", "card", "sio-usr", "mixed",
-            "nested-irq", "key-flood", "edge-mem")
+            "nested-irq", "key-flood", "edge-mem", "call-flow")
 
 # WAIT idles I cycles (timers and the keyboard scan keep running): short counts exercise "timer about to fire",
 # long counts let slow device state machines (debounce -> auto-repeat -> FIFO overflow) reach their late states.
@@ -219,12 +229,157 @@ def _lcd_ops(st: Stream) -> List[Instr]:
     return [mv_a_abs(addr), log_a()]
 
 
+# ---------------------------------------------------------------------------------------------------------
+# control-flow skeletons (round 5): what the scenario program *does* between two snapshot points
+# ---------------------------------------------------------------------------------------------------------
+# A generated call graph (DAG) of routines spread over the four 64 KiB pages of the ROM window.  A routine is
+# entered either by a near CALL (16-bit return address on the stack, the page is implicit) or by CALLF (20-bit
+# return address); its body is work items, calls of further routines (near: in the page currently executing;
+# far: anywhere), optional JPF continuations into another page, and it ends with the matching RET / RETF --
+# directly or through a shared tail (several routines JPF into the same RET / RETF tail).  The executor state
+# behind this (return addresses on the S stack, but also whatever bookkeeping an implementation keeps per call
+# frame: depth counters, page of the caller, ...) becomes part of "the reachable machine state" at every
+# snapshot point inside the graph.
+#
+# RET combines the popped 16 bits with a page.  The program is written so that it is well defined whichever page
+# that is: for every near-CALL return offset r (called from page P) every other ROM page holds `JPF P:r` at the
+# same offset r ("page-return pad").  Chunk slots are allocated from one offset space shared by all pages, so a
+# pad never collides with code.
+FLOW_PAGES = (0xC0000, 0xD0000, 0xE0000, 0xF0000)
+FLOW_SLOT0, FLOW_SLOT_SIZE, FLOW_SLOTS = 0x1000, 0x40, 120  # offsets 0x1000..0x2DFF of every page
+FLOW_MAX_DEPTH = 3
+FLOW_MAX_ROUTINES = 9
+
+
+class Flow:
+    def __init__(self, st: Stream, work: Any) -> None:
+        self.st = st
+        self.work = work  # callable -> List[Instr]: one work item
+        order = list(range(FLOW_SLOTS))
+        for i in range(len(order) - 1, 0, -1):  # seeded shuffle
+            j = st.below(i + 1)
+            order[i], order[j] = order[j], order[i]
+        self._slots = order
+        self.chunks: List[Tuple[int, List[Instr], str]] = []  # (address, instructions, kind)
+        self.ret_sites: List[Tuple[int, int]] = []  # (page of the near CALL, return offset)
+        self.done: List[Dict[str, Any]] = []  # completed routines {"kind", "page", "entry", "depth"}
+        self.tails: Dict[str, List[int]] = {"near": [], "far": []}
+        self.count = 0
+
+    def _slot(self) -> int:
+        return FLOW_SLOT0 + self._slots.pop() * FLOW_SLOT_SIZE + self.st.below(8)
+
+    def _tail(self, kind: str) -> int:
+        st = self.st
+        if self.tails[kind] and (len(self.tails[kind]) >= 2 or st.chance(1, 2)):
+            return st.choice(self.tails[kind])
+        addr = st.choice(FLOW_PAGES) | self._slot()
+        code = self.work() + [RET if kind == "near" else RETF]
+        self.chunks.append((addr, code, "ret-tail" if kind == "near" else "retf-tail"))
+        self.tails[kind].append(addr)
+        return addr
+
+    def routine(self, kind: str, page: int, depth: int) -> int:
+        """Build a routine entered by a near CALL (kind "near", must start in `page`) or CALLF; returns its entry."""
+        st = self.st
+        self.count += 1
+        entry = page | self._slot()
+        start, cur_page, code, size = entry, page, [], 0
+        base_kind = f"{kind}-routine"
+
+        def add(instrs: Sequence[Instr]) -> None:
+            nonlocal size
+            code.extend(instrs)
+            size += sum(len(i[0]) for i in instrs)
+
+        def flush() -> None:
+            self.chunks.append((start, list(code), base_kind + ("" if (start & 0xF0000) == page else ":moved")))
+
+        calls = 0
+        for seg in range(1 + st.below(3)):
+            if size > 0x18:
+                break
+            for _ in range(st.below(3)):
+                add(self.work())
+            if depth < FLOW_MAX_DEPTH and calls < 2 and st.chance(3, 4):
+                calls += 1
+                ckind = "near" if st.chance(1, 2) else "far"
+                cands = [r for r in self.done if r["kind"] == ckind and (ckind == "far" or r["page"] == cur_page)]
+                if cands and (self.count >= FLOW_MAX_ROUTINES or st.chance(1, 3)):
+                    child = st.choice(cands)["entry"]  # shared callee (completed routines only: no cycles)
+                elif self.count >= FLOW_MAX_ROUTINES:
+                    child = None
+                else:
+                    child = self.routine(ckind, cur_page if ckind == "near" else st.choice(FLOW_PAGES), depth + 1)
+                if child is not None and ckind == "near":
+                    add([call(child)])
+                    self.ret_sites.append((cur_page, (start + size) & 0xFFFF))
+                    add([NOP])  # keeps return offsets >= 4 bytes apart (room for the page-return pads)
+                elif child is not None:
+                    add([callf(child)])
+            if st.chance(1, 3):  # the routine continues in another page
+                npage = st.choice([p for p in FLOW_PAGES if p != cur_page])
+                nstart = npage | self._slot()
+                add([jpf(nstart)])
+                flush()
+                start, cur_page, code, size = nstart, npage, [], 0
+        if st.chance(2, 5):
+            add([jpf(self._tail(kind))])  # return through a shared tail (any page)
+        else:
+            add(self.work() if st.chance(1, 2) else [])
+            add([RET if kind == "near" else RETF])
+        flush()
+        self.done.append({"kind": kind, "page": page, "entry": entry, "depth": depth})
+        return entry
+
+    def call_item(self, page: int = MAIN & 0xF0000) -> List[Instr]:
+        """A call of one of the root routines from code running in `page` (main loop / interrupt handler)."""
+        st = self.st
+        roots = [r for r in self.done if r["depth"] == 0 and (r["kind"] == "far" or r["page"] == page)]
+        r = st.choice(roots)
+        return [call(r["entry"]), NOP] if r["kind"] == "near" else [callf(r["entry"])]
+
+    def note_near_calls(self, base: int, instrs: Sequence[Instr]) -> None:
+        """Return sites of near CALLs placed outside the graph (main loop, handler)."""
+        pos = base
+        for code, _txt in instrs:
+            pos += len(code)
+            if code[0] == 0x04 and code != call(SUB)[0]:
+                self.ret_sites.append((base & 0xF0000, pos & 0xFFFF))
+
+    def emit(self, listing: List[str]) -> Tuple[List[List[Any]], List[List[Any]]]:
+        """(rom chunks, [start, end, kind] ranges)"""
+        rom: List[List[Any]] = []
+        ranges: List[List[Any]] = []
+        for addr, code, kind in self.chunks:
+            blob = _emit(addr, code, listing)
+            if len(blob) > FLOW_SLOT_SIZE - 8:
+                raise HarnessError(f"C16 flow chunk of {len(blob)} bytes does not fit its slot")
+            rom.append([addr, blob.hex()])
+            ranges.append([addr, addr + len(blob), kind])
+        for page, off in sorted(set(self.ret_sites)):
+            for q in FLOW_PAGES:
+                if q != page:
+                    blob = _emit(q | off, [jpf(page | off)], listing)
+                    rom.append([q | off, blob.hex()])
+                    ranges.append([q | off, (q | off) + len(blob), "page-return"])
+        return rom, ranges
+
+
+def flow_kind(scen: Dict[str, Any], pc: int) -> Optional[str]:
+    for a, b, kind in (scen.get("flow") or {}).get("ranges", []):
+        if a <= pc < b:
+            return str(kind)
+    return None
+
+
 def _body(st: Stream, profile: str, n_items: int, in_handler: bool, keys: Sequence[str],
-          edges: Sequence[int] = (ROM_END,), xr: Tuple[int, int] = (0x50000, 0x51FFF)) -> List[Instr]:
+          edges: Sequence[int] = (ROM_END,), xr: Tuple[int, int] = (0x50000, 0x51FFF),
+          flow: Optional[Flow] = None) -> List[Instr]:
     out: List[Instr] = []
     w = {"nop": 2, "inc": 2, "kil": 2, "rd_imem": 2, "wr_imem": 2, "kol": 1, "lcd": 1, "card": 1, "ram": 1,
          "halt": 0, "off": 0, "wait": 0, "call": 1, "stack": 1, "flags": 1, "usr": 0, "isr_clr": 1,
-         "imr": 1, "lcc": 0, "longwait": 0, "edge_rd": 1, "xram": 1}
+         "imr": 1, "lcc": 0, "longwait": 0, "edge_rd": 1, "xram": 1, "flow": 0}
     if profile == "timer-irq":
         w.update(imr=3, isr_clr=2, rd_imem=3)
     elif profile == "key-irq":
@@ -250,6 +405,8 @@ def _body(st: Stream, profile: str, n_items: int, in_handler: bool, keys: Sequen
         w.update(longwait=6, kil=0, kol=0, rd_imem=3, imr=0, isr_clr=1, wait=1)
     elif profile == "edge-mem":
         w.update(edge_rd=6, xram=6, ram=2, card=1)
+    elif profile == "call-flow":
+        w.update(flow=7, kil=3, imr=2, isr_clr=2, wait=1, stack=2)
     if in_handler:
         w.update(halt=0, off=0, wait=w["wait"] // 3, call=0, isr_clr=w["isr_clr"] + 3, kil=w["kil"] + 1,
                  longwait=0)
@@ -258,6 +415,10 @@ def _body(st: Stream, profile: str, n_items: int, in_handler: bool, keys: Sequen
         if profile == "nested-irq":
             # the only IMR write of this handler is the re-enable placed by generate()
             w.update(imr=0)
+        if profile == "call-flow":
+            w.update(flow=4)  # calls from inside the interrupt handler as well
+    if flow is None:
+        w.update(flow=0)
     kinds = [k for k, v in w.items() for _ in range(v)]
     while len(out) < n_items:
         kind = st.choice(kinds)
@@ -316,6 +477,9 @@ def _body(st: Stream, profile: str, n_items: int, in_handler: bool, keys: Sequen
                 out += [mv_a_abs(addr), log_a()]
         elif kind == "call":
             out.append(call(SUB))
+        elif kind == "flow":
+            assert flow is not None
+            out += flow.call_item()
         elif kind == "stack":
             out += st.choice(([PUSHS_F, SC, POPS_F], [PUSHU_A, INC_A, POPU_A]))
         elif kind == "flags":
@@ -334,7 +498,7 @@ def _emit(base: int, instrs: Sequence[Instr], listing: List[str]) -> bytes:
 
 # index -> profile slots: the two profiles whose target state is reached in only a fraction of the scenarios
 # (a handler frame left over after a nested return; a completely full key queue) get extra slots
-PROFILE_SLOTS = PROFILES + ("nested-irq", "nested-irq", "key-flood")
+PROFILE_SLOTS = PROFILES + ("nested-irq", "nested-irq", "key-flood", "call-flow")
 
 
 def generate(seed: int, index: int, n: int, k: int) -> Dict[str, Any]:
@@ -375,10 +539,46 @@ def generate(seed: int, index: int, n: int, k: int) -> Dict[str, Any]:
             if st.chance(3, 4):
                 mask |= 1 << c
         pro.append(mv_imem_imm(KOL, mask & 0xFF))
-    body = _body(st, profile, 5 + st.below(9), False, used_keys, edges, xr)
+    flow: Optional[Flow] = None
+    if profile == "call-flow":
+        def work() -> List[Instr]:
+            r = st.below(8)
+            if r == 0:
+                return [NOP]
+            if r == 1:
+                return [INC_A]
+            if r == 2:
+                return [inc_imem(0x10 + st.below(4))]
+            if r == 3:
+                return [mv_a_imem(st.choice((0x10, 0x11, ISR, KIL, SSR, IMR))), log_a()]
+            if r == 4:
+                return [mv_a_imm(st.byte()), mv_abs_a(SCRATCH_RAM + st.below(16))]
+            if r == 5:
+                return [PUSHU_A, INC_A, POPU_A]
+            if r == 6:
+                return [st.choice((SC, RC))]
+            return [INC_A, log_a()]
+
+        flow = Flow(st, work)
+        # root routines: at least one near root in the page of the main loop / handler and one far root
+        flow.routine("near", MAIN & 0xF0000, 0)
+        flow.routine("far", st.choice(FLOW_PAGES), 0)
+        if st.chance(1, 2):
+            flow.routine("near" if st.chance(1, 2) else "far", MAIN & 0xF0000, 0)
+    body = _body(st, profile, 5 + st.below(9), False, used_keys, edges, xr, flow)
     # the profile's signature instruction is guaranteed to be in the main loop
     sig = {"halt": [HALT], "off-onk": [OFF], "wait": [mv_i_imm(st.choice(WAIT_SHORT)), WAIT],
-           "key-flood": [mv_i_imm(st.choice(WAIT_LONG)), WAIT]}.get(profile)
+           "key-flood": [mv_i_imm(st.choice(WAIT_LONG)), WAIT],
+           }.get(profile)
+    if flow is not None:
+        # every root routine is called from the main loop at least once
+        for r in [r for r in flow.done if r["depth"] == 0]:
+            item = [call(r["entry"]), NOP] if r["kind"] == "near" else [callf(r["entry"])]
+            if not any(i == item[0] for i in body):
+                pos = st.below(len(body) + 1)
+                while pos > 0 and body[pos - 1][0][0] == 0x04:  # never between a near CALL and its NOP
+                    pos -= 1
+                body = body[:pos] + item + body[pos:]
     if sig and not any(i[0] == sig[-1][0] for i in body):
         pos = st.below(len(body) + 1)
         body = body[:pos] + sig + body[pos:]
@@ -398,7 +598,7 @@ def generate(seed: int, index: int, n: int, k: int) -> Dict[str, Any]:
         pos = st.below(2)
         handler = hb[:pos] + [reen] + hb[pos:] + [RETI]
     else:
-        handler = _body(st, profile, 2 + st.below(5), True, used_keys, edges, xr) + [RETI]
+        handler = _body(st, profile, 2 + st.below(5), True, used_keys, edges, xr, flow) + [RETI]
     handler_blob = _emit(HANDLER, handler, listing)
     sub = [st.choice((inc_imem(0x12), INC_A, NOP)), RET]
     sub_blob = _emit(SUB, sub, listing)
@@ -408,6 +608,13 @@ def generate(seed: int, index: int, n: int, k: int) -> Dict[str, Any]:
     # generated filler at both ends of the ROM window (otherwise 00): a lost or shifted byte must be visible
     rom.append([ROM_START + 0x3000, bytes(st.byte() | 0x01 for _ in range(16)).hex()])
     rom.append([ROM_END + 1 - 0x40, bytes(st.byte() | 0x01 for _ in range(0x40 - 6)).hex()])
+    flow_meta: Optional[Dict[str, Any]] = None
+    if flow is not None:
+        flow.note_near_calls(MAIN, pro + loop)
+        flow.note_near_calls(HANDLER, handler)
+        frombs, franges = flow.emit(listing)
+        rom += frombs
+        flow_meta = {"ranges": franges, "routines": len(flow.done), "ret_sites": len(set(flow.ret_sites))}
 
     timer_on = st.chance(5, 6) if profile != "off-onk" else st.chance(1, 2)
     mti = st.choice((2, 3, 3, 5, 7, 11, 16))
@@ -488,8 +695,11 @@ def generate(seed: int, index: int, n: int, k: int) -> Dict[str, Any]:
                 ev = ["press", key, matrix_code(key)]
         if ev is not None:
             events.setdefault(str(j), []).append(ev)
-    return {"rom": rom, "cfg": cfg, "events": events, "n": n, "k": k, "profile": profile,
+    scen = {"rom": rom, "cfg": cfg, "events": events, "n": n, "k": k, "profile": profile,
             "listing": listing, "index": index}
+    if flow_meta is not None:
+        scen["flow"] = flow_meta
+    return scen
 
 
 def gen_chains(seed: int, index: int, n: int, count: int, cross_points: Sequence[int]) -> List[Dict[str, Any]]:
